@@ -352,7 +352,7 @@ def load_equipment(eq_json):
 
 @st.composite
 def fiber_params(draw, length_km=None, lumped=True, per_freq_loss=True, connectors=True, variety=None,
-                 overrides=True, loss=(0.16, 0.30)):
+                 overrides=True, loss=(0.16, 0.30), dispersion_slope=None):
     if length_km is None:
         length_km = draw(st.one_of(st.sampled_from([80.0, 50.0, 100.0, 120.0]), st.floats(0.005, 160.0).map(lambda x: _r(x, 3)),
                                    st.floats(20.0, 110.0).map(lambda x: _r(x, 2))))
@@ -385,6 +385,9 @@ def fiber_params(draw, length_km=None, lumped=True, per_freq_loss=True, connecto
             del p['lumped_losses']
     if overrides and draw(st.integers(0, 5)) == 0:
         p['pmd_coef'] = draw(st.sampled_from([1.0e-15, 2.0e-15, 0.4e-15]))
+    if dispersion_slope is not None:
+        # element-level dispersion slope (s/m^3): chromatic dispersion differs from channel to channel
+        p['dispersion_slope'] = dispersion_slope
     v = variety or draw(st.sampled_from(['SSMF', 'SSMF', 'NZDF', 'LOF', 'SLOPE']))
     return v, p
 
